@@ -14,7 +14,8 @@
 From Coq Require Import ZArith List Bool Arith.
 From GoCoap Require Import Base.Interleave Observe.Model Token.Model Token.Spec Token.Proofs
   Token.BwModel Token.BwSpec Token.BwProofs Token.WriterModel Token.WriterProofs
-  Token.DedupModel Token.DedupSpec Token.DedupProofs.
+  Token.DedupModel Token.DedupSpec Token.DedupProofs
+  Token.ReasmModel Token.ReasmProofs Token.RecycleModel Token.RecycleProofs.
 Import ListNotations.
 Local Open Scope nat_scope.
 
@@ -427,3 +428,78 @@ Proof.
   split; [exact Hrt1|]. split; [exact Hrt2|]. split; [apply Hwl|]. split; [apply Hwl|].
   vm_compute. reflexivity.
 Qed.
+
+(* ======== round 4: the reassembly state of a block-wise response has a validity (Token/ReasmModel.v), and the
+   message a response is decoded into has had earlier lives (Token/RecycleModel.v) ======== *)
+
+(* ---- "the content the peer produced for that request", block-wise: for ALL event lists (requests that register,
+   blocks that arrive, requests that end, time passing beyond the validity of what is stored, sweeps) in which the
+   peer produces blocks for the request that holds the key and a request ends only when no VALID reassembly element
+   is left under its key (transfer completed, or the request's deadline -- which is the element's validity -- has
+   passed): every body handed on under a key consists of blocks produced for one request, and that request
+   registered with this key. In particular blocks received for a request that gave up at its deadline never become
+   part of the response to a later request that uses the token again. ---- *)
+Theorem C03_reasm_own_content : forall evs,
+  timely_run rempty evs ->
+  forall k parts, In (ODeliver k parts) (snd (rrun load_valid rempty evs)) ->
+    exists cid, In (RStart cid k) evs /\ Forall (eq cid) parts.
+Proof. exact reasm_own_content. Qed.
+Print Assumptions C03_reasm_own_content.
+
+(* one step: in a state in which every valid element belongs to the holder of its key, a body handed on is the
+   holder's, and the state stays that way *)
+Theorem C03_reasm_step : forall s ev s' o,
+  clean s -> timely s ev -> rstep load_valid s ev = (s', o) ->
+  clean s' /\ Forall (own_body s) o.
+Proof. intros s ev s' o H1 H2 H3. destruct (step_clean s ev s' o H1 H2 H3) as (A & B & _). split; assumption. Qed.
+Print Assumptions C03_reasm_step.
+
+(* an expired element is not found by the look-up of the code (it is as good as absent until the sweep) *)
+Theorem C03_reasm_expired_not_loaded : forall k s, load_valid k (rcached (purge s)) = load_valid k (rcached s).
+Proof. exact expired_as_absent_look_up. Qed.
+Print Assumptions C03_reasm_expired_not_loaded.
+
+(* ... and for every event list without a sweep the machine produces the same outputs from a state and from the state
+   without its expired elements (across a sweep this is false: onExpire deletes the sending entry under the key) *)
+Theorem C03_reasm_expired_as_absent : forall evs s,
+  ~ In RSweep evs -> snd (rrun load_valid (purge s) evs) = snd (rrun load_valid s evs).
+Proof. exact expired_as_absent. Qed.
+Print Assumptions C03_reasm_expired_as_absent.
+
+(* the look-up without the validity test: the same (timely) events hand on a body whose first block was produced
+   for request 0 to request 1; with the look-up of the code the body is request 1's *)
+Theorem C03_reasm_stale_refuted :
+  timely_run rempty stale_evs /\
+  snd (rrun load_any rempty stale_evs) = [OAsk 7 1; OAsk 7 1; OAsk 7 2; ODeliver 7 [0; 1; 1]] /\
+  snd (rrun load_valid rempty stale_evs) = [OAsk 7 1; OAsk 7 1; OAsk 7 2; ODeliver 7 [1; 1; 1]].
+Proof. exact reasm_stale_refuted. Qed.
+Print Assumptions C03_reasm_stale_refuted.
+
+(* ---- the response is decoded into a message from the pool: for ALL previous lives of that message (decodes with
+   the stream or the datagram coder, bodies set, releases), once it has been released (Reset) a response decoded
+   into it reads -- token, code, body -- exactly as the peer encoded it ---- *)
+Theorem C03_recycled_reads_own_content : forall ops tcp w,
+  content (papply reset (lives reset (ops ++ [PReset])) (PUnm tcp w)) = wire_content w.
+Proof. exact recycled_reads_own_content. Qed.
+Print Assumptions C03_recycled_reads_own_content.
+
+(* the datagram coder assigns the payload unconditionally: there the previous life never shows *)
+Theorem C03_datagram_decode_overwrites : forall m w, content (unmarshal false w m) = wire_content w.
+Proof. exact datagram_decode_overwrites. Qed.
+Print Assumptions C03_datagram_decode_overwrites.
+
+(* a Reset that keeps the payload field: a payload-less 2.02 decoded with the stream coder reads with the body of
+   the 2.05 the message carried before *)
+Theorem C03_recycle_keep_refuted :
+  content (papply reset_keep (lives reset_keep keep_ops) (PUnm true (mkW [2%Z] 66%Z []))) = ([2%Z], 66%Z, [104%Z; 105%Z]) /\
+  content (papply reset (lives reset keep_ops) (PUnm true (mkW [2%Z] 66%Z []))) = ([2%Z], 66%Z, []).
+Proof. exact recycle_keep_refuted. Qed.
+Print Assumptions C03_recycle_keep_refuted.
+
+(* the hypotheses are satisfiable by a non-trivial instance: a transfer given up at its deadline, the token used
+   again, a sweep, a complete second transfer *)
+Example C03_reasm_hypotheses_satisfiable :
+  timely_run rempty (stale_evs ++ [REnd 1 7%Z; RSweep; RStart 2 7%Z; RBlock 7%Z (mkBlk 2 0 false)]) /\
+  snd (rrun load_valid rempty (stale_evs ++ [REnd 1 7%Z; RSweep; RStart 2 7%Z; RBlock 7%Z (mkBlk 2 0 false)])) =
+    [OAsk 7%Z 1; OAsk 7%Z 1; OAsk 7%Z 2; ODeliver 7%Z [1; 1; 1]; ODeliver 7%Z [2]].
+Proof. split; [cbn; repeat split; intros; try congruence; auto|vm_compute; reflexivity]. Qed.
